@@ -538,6 +538,8 @@ def run(ck):
         sb.cleanup()
         if len(ck.violations) > 6:
             break
+    # ---- (e) accepted files whose strings are assembled from macros: evaluation must terminate normally -------------------
+    run_compose(ck, rng, 12 if q else 200, stats)
     ck.coverage.update({
         'evaluations': len(cases) + stats['binary'],
         'distinct_nontrivial': stats['valid'] + stats['invalid'],
@@ -555,6 +557,37 @@ def run(ck):
     })
     ck.assumptions += ['regcomp of the platform decides which patterns are valid (passed to the model as an oracle)',
                        'the yacc automaton and its error recovery are not modelled; totality of config_parse on arbitrary bytes is tested under sanitizers, not proved']
+
+
+def run_compose(ck, rng, n, stats):
+    """macro values that only together spell a macro / back-reference, used in every string position"""
+    stats['compose'] = 0
+    for i in range(n):
+        sb = mdrun.Sandbox()
+        src = sb.maildir('src'); dst = sb.maildir('dst')
+        for j in range(2):
+            sb.add(src, 'new', b'To: a@b\nSubject: s%d\n\nbody\n' % j)
+        name = rng.choice([b'path', b'a', b'nosuch', b'b', b''])
+        tail = rng.choice([b'{' + name + b'}', b'{' + name, b'1', b'{'])
+        head = rng.choice([b'$', b'\\\\', b'~'])
+        S = b'"${a}${b}"'
+        cond = rng.choice([b'isdirectory ' + S, b'command ' + S, b'header ' + S + b' /x/', b'all', b'! isdirectory ' + S])
+        act = rng.choice([b'move ' + S, b'label ' + S, b'exec ' + S, b'add-header "X-Y" ' + S, b'flags ' + S, b'move "%s"' % dst.encode()])
+        if cond == b'all' and S not in act:
+            cond = b'isdirectory ' + S
+        text = b'a = "%s"\nb = "%s"\nmaildir "%s" {\n\tmatch %s %s\n}\n' % (head, tail, src.encode(), cond, act)
+        if S not in cond + act:
+            continue
+        conf = sb.write_conf(text)
+        for args in (['-d'], []):
+            rc, out, err = sb.run(args, conf=conf, kind='asan', env={'ASAN_OPTIONS': 'detect_leaks=0:exitcode=99', 'UBSAN_OPTIONS': 'halt_on_error=1:exitcode=98'}, timeout=30)
+            stats['compose'] += 1
+            if rc not in (0, 1) or b'Sanitizer' in err or b'runtime error' in err:
+                ck.violation('a configuration whose strings are assembled from macros makes mdsort %s terminate abnormally (exit %s): %s' % (' '.join(args), rc, err[:200].decode(errors='replace')),
+                             {'kind': 'compose', 'config': text.decode(errors='replace'), 'exit': rc, 'stderr': err[-800:].decode(errors='replace')})
+                sb.cleanup()
+                return
+        sb.cleanup()
 
 
 def replay(ck, rp):
